@@ -332,8 +332,12 @@ func (h *hwire) recvLine(d *driver, s *appState, f []string) string {
 	if len(h.calls) > 0 {
 		calls = strings.Join(h.calls, ",")
 	}
-	return fmt.Sprintf("ack=%s src=%s bal=%s sup=%s hreq=%s calls=%s ev=%s st=%s acktxt=%s", obs.ack, obs.src, bal, sup, req, calls, ev,
-		s.stateStr(s.env.Ctx), hxb(obs.ackBytes))
+	pattr := "-"
+	if obs.ack == "panic" {
+		pattr = panicAttribution(obs.panicMsg)
+	}
+	return fmt.Sprintf("ack=%s src=%s bal=%s sup=%s hreq=%s calls=%s ev=%s st=%s pattr=%s acktxt=%s", obs.ack, obs.src, bal, sup, req, calls, ev,
+		s.stateStr(s.env.Ctx), pattr, hxb(obs.ackBytes))
 }
 
 // fault <site> <k> (k=0: every call) | fault clear | swapctl <num> <den> <denomHex>
